@@ -228,6 +228,38 @@ pub fn body_delete(witness: bool) {
     fs::cleanup();
 }
 
+/// Window at the top of the index range: base = u32::MAX, count = 1 keeps exactly the archive
+/// `a.4294967295`; every index fits, so the roll must work (no overflow in the index arithmetic).
+pub fn body_maxbase(witness: bool) {
+    fs::reset();
+    env::reset();
+    let active = fs::add_name("a", 0);
+    let top = fs::add_name("a.4294967295", 0);
+    let existed = sym::any_bool();
+    if existed {
+        fs::put(top, &[10]);
+    }
+    fs::put(active, &[1]);
+    let mut pattern = fs::root();
+    pattern.push_str("/a.{}");
+    let roller = FixedWindowRoller::verif_new(&pattern, u32::MAX, 1);
+    let p = fs::path(active);
+    let res = roller.roll(Path::new(&p));
+    assert!(res.is_ok(), "C07: a window whose indices all fit must roll");
+    assert!(fs::get(active).is_none());
+    match fs::get(top) {
+        Some((1, d)) => assert!(d[0] == 1, "the rolled file is the newest archive"),
+        _ => assert!(false, "the rolled file is the newest archive"),
+    }
+    assert!(!fs::unknown_touched());
+    cover!(existed, "an older archive existed at the top index");
+    if witness {
+        assert!(false, "WITNESS");
+    }
+    fs::cleanup();
+    std::mem::forget(roller);
+}
+
 /// `FixedWindowRollerBuilder::build`: accepts exactly patterns containing `{}`; compression
 /// extensions are refused when the feature is off; the built roller rolls like the direct one.
 pub fn body_build(witness: bool) {
@@ -263,6 +295,8 @@ harnesses! {
     }
     #[kani::unwind(12)]
     fn c07_build() { body_build(false) }
+    #[kani::unwind(16)]
+    fn c07_file_bmax_c1() { body_maxbase(false) }
     #[kani::unwind(8)]
     fn c07_delete() { body_delete(false) }
     #[kani::unwind(8)]
